@@ -168,6 +168,30 @@ CHECKS = {
             "the SubRip/WebVTT readers never set) is a modelling device checked by the byte comparison; coloured "
             "runs are outside the WebVTT representability predicate; in the matrix and in the styled-source suite texts are plain Latin words (arbitrary "
             "Unicode text only in the SubRip/WebVTT model comparison)."),
+    "C04": (True,
+            "Executable Gallina model of the SSA/ASS reader and writer (Model/Ssa.v: line scanning, sections, comments, the Format map "
+            "with its overlay quirk, style rows, event rows with surplus commas folded into the last column, colours, booleans, numbers, "
+            "times, *-prefixed style names, event text splitting at \\N / \\n and at {...} blocks with a hand-written matcher for the "
+            "regular expression, script info; the writer's three Write calls with the styles map's iteration order as an explicit "
+            "argument). Machine-checked for ALL values (no size bound): field codecs (booleans - the written 1 and every non-zero integer "
+            "are true -, decimal and &H colours, numbers with three decimals, times to the centisecond incl. H:MM:SS.cc); event text: a "
+            "written line splits back into exactly its runs, every mixture of \\N and \\n denotes the same lines, commas are ordinary "
+            "bytes; style and event rows decoded column by column for EVERY Format line (any order, subset, repetition, unknown names, "
+            "TertiaryColour) and every admissible cell encoding; reading of rendered documents for every order of the script-info keys, "
+            "every spelling of the section names and every pair of Format lines; write->read = the document (canonical form) for every "
+            "representable document and every iteration order of the styles map (true booleans stay true, all 23 attributes); second "
+            "write byte-equal: write (read (write d)) = write d; bytes independent of the map order; unintelligible lines, unknown "
+            "sections and non-Dialogue events ignored; LF/CRLF/CR and BOM; reader and writer never panic. Tie: extracted model vs "
+            "ReadFromSSA/WriteToSSA on reader values and writer bytes (rendered, written, mutated, line-soup, corner and repository "
+            "documents; writer values incl. nil metadata/styles, key != ID, dangling pointers) and row-level suites through hooks "
+            "(style/event rows, colours, times, text, script info, floats); oracles on the implementation: reader vs ground truth on "
+            "the observable columns over all renderings of the quantifier, writer vs an independent Format-driven decoder and vs the "
+            "reader, write->read->write byte equality.",
+            "Rocq proof over a Gallina model of the SSA/ASS codec + extracted-model differential correspondence (values, bytes, rows through hooks) + independent Format-driven decoder",
+            "floats are fixed-point thousandths in the model (|k| < 10^15); strconv's behaviour on them is a stated contract exercised by "
+            "the ssafloat suites, outside that domain only the Ok/Err/Panic class is compared; strings.ToLower, regexp and sort.Strings as "
+            "stated in notes/C04.md; the document-level reading theorem fixes the order of the three sections (other orders: "
+            "correspondence and oracle only); every theorem of Properties/C04.v is closed under the global context."),
     "C06": (True,
             "Theorems about a Gallina model of the teletext reader from the delivered PES payloads on (page buffer, character decoder, "
             "page and row parsing; Model/Ttx.v, Model/TtxRow.v), with every table regenerated from the code on each run (tools/genttx -> "
